@@ -116,4 +116,10 @@ theorem translated_kdf_params_value (id : Nat) (ctx : Bytes) (hc : ctx.length = 
     Gen.Curve.kdf_params id ctx = (ctx ++ zeros 8, toLE 8 id ++ zeros 8) :=
   Proofs.GenCurve.kdf_params_eq_model' id ctx hc
 
+/-- tie to the source: the digest length handed to BLAKE2b is the caller's subkey length (not a constant), and key / salt /
+personalisation are the main key, the id block and the padded context, in that order -/
+theorem translated_kdf_init_args (len : Nat) (h : len ≤ 64) :
+    Gen.Curve.kdf_outlen len = len ∧ Gen.Curve.kdf_init_args = ["main_key", "salt", "ctx_padded"] :=
+  ⟨Proofs.GenCurve.kdf_outlen_eq len (by omega), Proofs.GenCurve.kdf_init_args_eq⟩
+
 end DryocVerif.Properties.C12
